@@ -237,7 +237,6 @@ TECHNIQUE = {
     "C15": "static analysis: interprocedural endianness dataflow over the call graph, default-argument trap, layout sibling comparison",
     "C20": "static analysis: CFG with exceptional edges, must-pass-through / dominance queries, ownership (who-may-open/close) rules",
 }
-_PENDING = "check not built yet in this session (planned, DESIGN.md section 4); not claimed until it is"
 NOT_APPLICABLE = {
     "C06": "quantifies over every byte offset of every file; prefix-ness depends on run-time remainders and short reads "
            "(total_data_size % chunk_size, bytes returned by readinto); no structural necessary condition specific to it - "
@@ -246,5 +245,3 @@ NOT_APPLICABLE = {
            "is not in the shape of the code (needs computer algebra or evaluation); structural facts about these classes "
            "(purity, result dtype) are claimed under C13/C14 (DESIGN.md section 4, C17)",
 }
-for _p in ["C%02d" % i for i in range(1, 21)]:
-    NOT_APPLICABLE.setdefault(_p, _PENDING)
